@@ -158,20 +158,33 @@ int predict_access_rc(const MFile &f, int rank, int varid, const Access &a, bool
 }
 
 // ---------------------------------------------------------------- annotator
-static void sync_numrecs(MFile &f) { for (auto &r : f.ranks) { r.numrecs = f.numrecs; r.numrecs_dirty = false; } }
+static void sync_numrecs(MFile &f) {
+    if (f.bb) { bool pend = false; for (auto &r : f.ranks) pend = pend || r.bb_pending;
+        if (pend) { long long lo = 0; for (auto &r : f.ranks) lo = std::max(lo, r.numrecs); for (auto &r : f.ranks) { r.numrecs = lo; r.numrecs_dirty = true; } return; } }   // records still sitting in a log are not part of the agreed count yet
+    for (auto &r : f.ranks) { r.numrecs = f.numrecs; r.numrecs_dirty = false; }
+}
+// burst-buffer fragment: rank's log is flushed (wait / flush / sync / redef / close / a read by that rank)
+static void bb_flush(MFile &f, int rank) { if (!f.bb) return; uint8_t me = (uint8_t)(1u << rank); for (auto &v : f.vars) for (auto &c : v.cells) c.bb &= (uint8_t)~me; if (rank < (int)f.ranks.size()) f.ranks[rank].bb_pending = false; }
+static void bb_flush_all(MFile &f) { if (!f.bb) return; for (auto &v : f.vars) for (auto &c : v.cells) c.bb = c.bbx = 0; for (auto &r : f.ranks) r.bb_pending = false; }
+static void bb_ordered(Model &m) { for (auto &f : m.files) if (f.bb) for (auto &v : f.vars) for (auto &c : v.cells) c.bbx = c.bb; }   // every rank passed a barrier: flushes made before it precede everything after it
+// a write is inside the documented fragment only if no log may still hold another write to the element and no pending nonblocking put covers it
+// 'post': a nonblocking put may reach the file at any flush between its post and its wait, so it must already be ordered (documented synchronisation)
+// after every other rank's earlier write to the element when it is posted
+static bool bb_conflict(const MFile &f, const MVar &v, const std::vector<long long> &elems, int rank, bool post = false) { if (!f.bb) return false; uint8_t me = (uint8_t)(1u << rank); for (auto e : elems) if (e >= 0 && e < (long long)v.cells.size()) { const Cell &c = v.cells[(size_t)e]; if (c.bb || c.bbpend || (c.bbx & ~me) || (post && (c.wmask & ~me))) return true; } return false; }
 static void mark_synced(MFile &f) { for (auto &v : f.vars) for (auto &c : v.cells) c.wmask = 0; }
 static MAtt *find_att(std::vector<MAtt> &l, const std::string &n) { for (auto &a : l) if (a.name == n) return &a; return nullptr; }
 static int resolve_var(const MFile &f, int var) { if (f.vars.empty()) return -2; return ((var % (int)f.vars.size()) + (int)f.vars.size()) % (int)f.vars.size(); }
 static bool any_pending(const MFile &f) { for (auto &r : f.ranks) for (auto &q : r.reqs) if (q.live) return true; return false; }
 
 static std::shared_ptr<MFile> schema_copy(const MFile &f) {
-    auto s = std::make_shared<MFile>(); s->open = f.open; s->path = f.path; s->format = f.format; s->mode = f.mode; s->readonly = f.readonly; s->fresh = f.fresh;
+    auto s = std::make_shared<MFile>(); s->open = f.open; s->path = f.path; s->format = f.format; s->mode = f.mode; s->readonly = f.readonly; s->fresh = f.fresh; s->bb = f.bb;
     s->dims = f.dims; s->gatts = f.gatts; s->numrecs = f.numrecs; s->fill = f.fill; s->ranks = f.ranks; for (auto &r : s->ranks) r.reqs.clear();
     for (auto &v : f.vars) { MVar c; c.name = v.name; c.type = v.type; c.dimids = v.dimids; c.atts = v.atts; c.isrec = v.isrec; c.shape = v.shape; c.recelems = v.recelems; c.no_fill = v.no_fill; c.fill_known = v.fill_known; c.has_fillv = v.has_fillv; c.fillv = v.fillv; c.fresh = v.fresh; s->vars.push_back(c); }
     return s;
 }
 static void req_counts(MFile &f, Op &op) {
     op.exp_nreqs.clear(); op.exp_usage.clear(); op.exp_usage_tail.clear();
+    if (f.bb) { for (size_t i = 0; i < f.ranks.size(); i++) { op.exp_nreqs.push_back(-1); op.exp_usage.push_back(-1); op.exp_usage_tail.push_back(-1); } return; }   // the burst-buffer driver keeps its own request table: request counts and buffer usage are not part of C12
     for (auto &r : f.ranks) { long long n = 0, u = 0; for (auto &q : r.reqs) if (q.live) { n++; if (q.kind == K_BPUT) u += q.abuf_bytes; } op.exp_nreqs.push_back(n); op.exp_usage.push_back(r.abuf ? u : -1); long long t = 0; for (auto &e : r.abuf_table) t += e.first; op.exp_usage_tail.push_back(r.abuf ? t : -1); }
 }
 static void do_enddef(MFile &f) {
@@ -188,6 +201,7 @@ static void do_enddef(MFile &f) {
 }
 
 static void apply_put(MFile &f, MVar &v, int rank, const Access &a, int opidx, bool coll, long long &maxrec) {
+    if (f.bb && !a.elems.empty() && rank < (int)f.ranks.size()) f.ranks[rank].bb_pending = true;
     for (size_t k = 0; k < a.elems.size(); k++) {
         long long e = a.elems[k];
         if (v.isrec) { long long rec = e / v.recelems; if (rec + 1 > maxrec) maxrec = rec + 1; ensure_records(v, rec + 1); }
@@ -195,9 +209,9 @@ static void apply_put(MFile &f, MVar &v, int rank, const Access &a, int opidx, b
         Cell &c = v.cells[(size_t)e];
         uint8_t me = (uint8_t)(1u << rank);
         uint8_t mark = f.aggr ? 0xff : me;   // with aggregation even the writer needs the documented synchronisation to see its data
-        if ((c.wmask & ~me) && !(c.st == CS_VALUE && c.v == a.values[k])) { c.st = CS_UNKNOWN; c.wmask |= mark; continue; }   // unordered writes by different ranks
+        if ((c.wmask & ~me) && !(c.st == CS_VALUE && c.v == a.values[k])) { c.st = CS_UNKNOWN; c.wmask |= mark; if (f.bb) { c.bb |= me; c.bbx |= me; } continue; }   // unordered writes by different ranks
         if (!(c.st == CS_UNKNOWN && (c.wmask & ~me))) { c.st = CS_VALUE; c.v = a.values[k]; }
-        c.wmask |= mark;
+        c.wmask |= mark; if (f.bb) { c.bb |= me; c.bbx |= me; }
     }
 }
 static void expect_get(MFile &f, MVar &v, int rank, Access &a) {
@@ -208,6 +222,7 @@ static void expect_get(MFile &f, MVar &v, int rank, Access &a) {
         if (e < 0 || e >= (long long)v.cells.size()) continue;
         const Cell &c = v.cells[(size_t)e];
         if (c.wmask & ~(uint8_t)(1u << rank)) continue;   // written by another rank and not yet ordered by the documented synchronisation
+        if (f.bb && (c.bbpend || (c.bb & ~(uint8_t)(1u << rank)))) continue;   // burst buffer: a pending nonblocking put may or may not have been flushed already
         if (a.form == F_VARN && seen[e]++) continue;
         if (c.st == CS_VALUE) { a.values[k] = c.v; a.estate[k] = 0; }
         else if (c.st == CS_FILL) a.estate[k] = 1;
@@ -255,11 +270,16 @@ static void normalise_access(const MVar &v, Access &a) {
     }
 }
 static void grow_numrecs(MFile &f, int rank, long long maxrec, bool coll) {
+    if (f.bb) { if (maxrec > f.numrecs) f.numrecs = maxrec; if (maxrec > f.ranks[rank].numrecs) { f.ranks[rank].numrecs_dirty = true; if (coll) for (auto &r : f.ranks) r.numrecs_dirty = true; } return; }   // staged: the rank may or may not report its own staged records, nobody else does before a flush
     if (maxrec > f.numrecs) f.numrecs = maxrec;
     if (coll) return; // caller syncs
     if (maxrec > f.ranks[rank].numrecs) { f.ranks[rank].numrecs = maxrec; f.ranks[rank].numrecs_dirty = true; }
 }
 
+// burst-buffer fragment: records that pending nonblocking puts would add (in the file after any flush under the burst-buffer driver, only after their wait under the default driver)
+static long long bb_pending_hi(const MFile &f) { long long hi = 0; if (f.bb) for (auto &r : f.ranks) for (auto &q : r.reqs) if (q.live && q.kind != K_IGET) hi = std::max(hi, q.maxrec); return hi; }
+// is the number of records rank r sees determined (same under both drivers)?  Needed for whole-variable access to record variables.
+static bool bb_numrecs_exact(const MFile &f, int r) { const MRank &rk = f.ranks[r]; long long hi = std::max(bb_pending_hi(f), (rk.numrecs_dirty || f.mode == FM_INDEP) ? std::max(rk.numrecs, f.numrecs) : rk.numrecs); return hi == rk.numrecs; }
 static bool model_step_inner(Model &m, Op &op);
 bool model_step(Model &m, Op &op) {
     bool ok = model_step_inner(m, op);
@@ -267,7 +287,7 @@ bool model_step(Model &m, Op &op) {
     if (ok && op.file >= 0 && op.file < (int)m.files.size() && op.kind != OP_CHECKPOINT && op.kind != OP_BARRIER && op.kind != OP_BADID) {
         MFile &f = m.files[op.file];
         if (f.open && f.unlimdim() >= 0 && !f.ranks.empty())
-            for (auto &r : f.ranks) { op.exp_numrecs_lo.push_back(r.numrecs); op.exp_numrecs_hi.push_back(r.numrecs_dirty || f.mode == FM_INDEP ? std::max(r.numrecs, f.numrecs) : r.numrecs); }
+            { long long ph = bb_pending_hi(f); for (auto &r : f.ranks) { op.exp_numrecs_lo.push_back(r.numrecs); op.exp_numrecs_hi.push_back(std::max(ph, r.numrecs_dirty || f.mode == FM_INDEP ? std::max(r.numrecs, f.numrecs) : r.numrecs)); } }
     }
     return ok;
 }
@@ -275,11 +295,11 @@ static bool model_step_inner(Model &m, Op &op) {
     op.skip = false; op.exp_rc = NC_NOERR; op.rc_any = false; op.exp_rc_rank.clear(); op.exp_rc_alt.clear(); op.note.clear();
     int opidx = m.opidx++;
     op.snap.reset(); op.msnap.reset(); op.exp_nreqs.clear(); op.exp_usage.clear();
-    if (op.kind == OP_BARRIER) { m.pending_reads.clear(); return true; }
+    if (op.kind == OP_BARRIER) { m.pending_reads.clear(); bb_ordered(m); return true; }
     if (op.kind == OP_BADID) { op.exp_rc = NC_EBADID; return true; }
     if (op.kind == OP_OPENPROBE) { op.rc_any = true; return true; }   // open an arbitrary byte image: handled entirely by the interpreter   // a call on an id that is not open: always applicable
     if (op.kind == OP_CHECKPOINT) {
-        m.pending_reads.clear();
+        m.pending_reads.clear(); bb_ordered(m);
         if (op.a[0] == 1) { if (op.file < 0 || op.file >= (int)m.files.size() || !m.files[op.file].open || !m.files[op.file].in_redef) { op.skip = true; return false; } m.snap_state[op.file] = 1; op.name = m.files[op.file].path; }
         else if (op.a[0] == 2) { if (m.snap_state[op.file] != 2) { op.skip = true; return false; } m.snap_state[op.file] = 0; }
         else if (op.a[0] == 5 || op.a[0] == 6) { if (op.file < 0 || op.file >= (int)m.files.size() || !m.files[op.file].open) { op.skip = true; return false; } op.name = m.files[op.file].path; }
@@ -295,7 +315,7 @@ static bool model_step_inner(Model &m, Op &op) {
         for (auto &o : m.files) if (o.open && o.path == op.name) return skip();
         MFile n; n.open = true; n.path = op.name; n.format = (int)op.a[0]; if (n.format != 1 && n.format != 2 && n.format != 5) n.format = 1;
         n.mode = FM_DEFINE; n.fresh = true; n.ranks.assign(m.nprocs, MRank());
-        auto h = op.hints.find("nc_burst_buf"); n.bb = (h != op.hints.end() && h->second == "enable");
+        n.bb = m.bb_rules;
         n.aggr = m.aggr_env || op.hints.count("nc_num_aggrs_per_node");
         m.disk.erase(op.name);
         m.absent.erase(std::remove(m.absent.begin(), m.absent.end(), op.name), m.absent.end());
@@ -308,7 +328,7 @@ static bool model_step_inner(Model &m, Op &op) {
         f = it->second; f.open = true; f.mode = FM_COLL; f.readonly = (op.a[0] == 0); f.fresh = false; f.first_layout = false; f.in_redef = false; f.saved.reset(); f.fill = false; /* the dataset fill mode is not stored in the file */
         f.ranks.assign(m.nprocs, MRank()); sync_numrecs(f); mark_synced(f);
         for (auto &v : f.vars) { v.fresh = false; v.fill_known = false; for (auto &c : v.cells) c.wmask = 0; }
-        auto h = op.hints.find("nc_burst_buf"); f.bb = (h != op.hints.end() && h->second == "enable");
+        f.bb = m.bb_rules; for (auto &v : f.vars) for (auto &c : v.cells) { c.bb = c.bbx = 0; c.bbpend = 0; }
         f.aggr = m.aggr_env || op.hints.count("nc_num_aggrs_per_node");
         return true;
     }
@@ -321,7 +341,7 @@ static bool model_step_inner(Model &m, Op &op) {
         m.snap_state[op.file] = 0;
         if (f.mode == FM_DEFINE) do_enddef(f);
         if (any_pending(f)) { op.exp_rc_rank.assign(m.nprocs, NC_NOERR); for (int r = 0; r < m.nprocs; r++) for (auto &q : f.ranks[r].reqs) if (q.live) op.exp_rc_rank[r] = NC_EPENDING; }
-        sync_numrecs(f); mark_synced(f);
+        bb_flush_all(f); sync_numrecs(f); mark_synced(f);
         MFile s = f; s.open = false; s.ranks.clear(); s.saved.reset(); m.disk[s.path] = s; f = MFile(); return true;
     }
     case OP_PROBE: {
@@ -370,7 +390,7 @@ static bool model_step_inner(Model &m, Op &op) {
     case OP_REDEF: {
         if (op.a[4] == 1 && f.open && (f.mode == FM_DEFINE || f.readonly)) { op.exp_rc = f.readonly ? NC_EPERM : NC_EINDEFINE; if (f.readonly && f.mode == FM_DEFINE) op.exp_rc_alt = {NC_EINDEFINE}; return true; }
         if (!f.open || f.mode == FM_DEFINE || f.readonly) return skip();
-        sync_numrecs(f);
+        bb_flush_all(f); sync_numrecs(f);
         f.saved = std::make_shared<MFile>(f); f.saved->saved.reset(); f.saved->mode = FM_COLL;
         f.mode = FM_DEFINE; f.in_redef = true; return true;
     }
@@ -379,10 +399,10 @@ static bool model_step_inner(Model &m, Op &op) {
     // before a mode switch is only ordered with accesses after it by the documented sync-barrier-sync, even on the writing rank itself
     case OP_BEGIN_INDEP: if (op.a[4] == 1 && f.open && f.mode == FM_DEFINE) { op.exp_rc = NC_EINDEFINE; return true; } if (op.a[4] == 1 && f.open && f.mode == FM_INDEP) { op.exp_rc = NC_NOERR; return true; } if (!f.open || f.mode != FM_COLL) return skip(); f.mode = FM_INDEP; for (auto &v : f.vars) for (auto &c : v.cells) if (c.wmask) c.wmask = 0xff; return true;
     case OP_END_INDEP: if (op.a[4] == 1 && f.open && f.mode == FM_DEFINE) { op.exp_rc = NC_EINDEFINE; return true; } if (op.a[4] == 1 && f.open && f.mode == FM_COLL) { op.exp_rc = NC_NOERR; return true; } if (!f.open || f.mode != FM_INDEP) return skip(); f.mode = FM_COLL; sync_numrecs(f); for (auto &v : f.vars) for (auto &c : v.cells) if (c.wmask) c.wmask = 0xff; return true;
-    case OP_SYNC: if (!f.open || f.mode == FM_DEFINE) return skip(); sync_numrecs(f); return true;
+    case OP_SYNC: if (!f.open || f.mode == FM_DEFINE) return skip(); bb_flush_all(f); sync_numrecs(f); return true;
     case OP_SYNC_NUMRECS: if (!f.open || f.mode == FM_DEFINE) return skip(); sync_numrecs(f); return true;
-    case OP_FLUSH: if (!f.open || f.mode == FM_DEFINE) return skip(); return true;
-    case OP_SYNCPOINT: if (!f.open || f.mode == FM_DEFINE) return skip(); sync_numrecs(f); mark_synced(f); m.pending_reads.clear(); return true;
+    case OP_FLUSH: if (!f.open || f.mode == FM_DEFINE) return skip(); if (f.bb) { bb_flush_all(f); if (f.mode == FM_COLL) sync_numrecs(f); } return true;
+    case OP_SYNCPOINT: if (!f.open || f.mode == FM_DEFINE) return skip(); bb_flush_all(f); sync_numrecs(f); mark_synced(f); m.pending_reads.clear(); return true;
     case OP_SET_FILL: if (!f.open || f.mode != FM_DEFINE) return skip(); f.fill = (op.a[0] != 0); for (auto &v : f.vars) { v.no_fill = !f.fill; v.fill_known = true; } return true;
     case OP_DEF_DIM: {
         if (!f.open || f.mode != FM_DEFINE || op.name.empty() || op.a[0] < 0) return skip();
@@ -421,6 +441,7 @@ static bool model_step_inner(Model &m, Op &op) {
     }
     case OP_FILL_VAR_REC: {
         if (!f.open || f.mode != FM_COLL || f.readonly) return skip();
+        if (f.bb) return skip();   // fill_var_rec bypasses the log: its order relative to staged writes is outside the documented fragment
         int vi = resolve_var(f, op.var); if (vi < 0) return skip();
         MVar &v = f.vars[vi]; op.var = vi; if (!v.isrec || v.no_fill || !v.fill_known || op.a[0] < 0) return skip();
         long long rec = op.a[0]; ensure_records(v, rec + 1);
@@ -510,6 +531,12 @@ static bool model_step_inner(Model &m, Op &op) {
         if (op.coll) {   // all ranks of one collective call use the same API family (var1/var/vara/vars/varm | varn | vard)
             int fam = -1; for (auto &a : op.acc) if (a.active) { int f2 = a.form == F_VARN ? 1 : a.form == F_VARD ? 2 : 0; if (fam < 0) fam = f2; else if (fam != f2) return skip(); }
         }
+        if (is_read && f.bb) {   // burst buffer: a read flushes the reader's own log first (all logs, and the record count is agreed, in a collective read)
+            // how many records a whole-variable read covers is not determined while staged records are around
+            for (int r = 0; r < m.nprocs; r++) if (op.acc[r].active && op.acc[r].form == F_VAR && v.isrec && (op.coll ? bb_pending_hi(f) > f.numrecs : !bb_numrecs_exact(f, r))) return skip();
+            if (op.coll) { bb_flush_all(f); sync_numrecs(f); }
+        }
+        if (!is_read && f.bb) for (int r = 0; r < m.nprocs; r++) if (op.acc[r].active && op.acc[r].form == F_VAR && v.isrec && !bb_numrecs_exact(f, r)) return skip();
         // first pass: validity and element lists (reads see the state before this op)
         for (int r = 0; r < m.nprocs; r++) {
             Access &a = op.acc[r]; a.elems.clear(); a.exp_rc = NC_NOERR; a.rc_any = false;
@@ -531,7 +558,11 @@ static bool model_step_inner(Model &m, Op &op) {
             int mn = NC_NOERR; for (int r = 0; r < m.nprocs; r++) if (op.acc[r].active) mn = std::min(mn, op.acc[r].exp_rc);
             if (mn != NC_NOERR) { for (int r = 0; r < m.nprocs; r++) { op.acc[r].exp_rc = mn; op.exp_rc_rank[r] = mn; op.acc[r].elems.clear(); } op.note = "safe-mode-shared-error"; }
         }
+        if (f.bb && !is_read) {   // burst-buffer fragment (documented limitations): no element written twice between flushes, no vard (it bypasses the log)
+            for (int r = 0; r < m.nprocs; r++) { Access &a = op.acc[r]; if (!a.active) continue; if (a.form == F_VARD) return skip(); if (a.exp_rc == NC_NOERR && bb_conflict(f, v, a.elems, r)) return skip(); }
+        }
         if (is_read) { op.snap = schema_copy(f); for (int r = 0; r < m.nprocs; r++) if (op.acc[r].active && op.acc[r].exp_rc == NC_NOERR) m.pending_reads.push_back({opidx, r, op.file, vi}); }
+        if (is_read && f.bb && !op.coll) for (int r = 0; r < m.nprocs; r++) if (op.acc[r].active && op.acc[r].exp_rc == NC_NOERR && !op.acc[r].elems.empty()) bb_flush(f, r);   // an independent read of at least one element flushes the reader's own log (a zero-length one returns before reaching the driver)
         if (!is_read) op.a[5] = v.isrec ? 1 : 0;   // (for attribution of the C08 known finding)
         if (!is_read) {
             // values: unique per (op, rank, element); detect intra-op overlap between ranks
@@ -566,6 +597,8 @@ static bool model_step_inner(Model &m, Op &op) {
         if (v.fresh && false) return skip();
         if ((int)op.acc.size() != m.nprocs) return skip();
         op.exp_rc_rank.assign(m.nprocs, NC_NOERR);
+        MFile bb_backup; if (f.bb) bb_backup = f;
+        auto bbskip = [&]() { m.files[op.file] = bb_backup; op.skip = true; return false; };   // burst-buffer fragment: undo what earlier ranks of this op queued
         for (int r = 0; r < m.nprocs; r++) {
             Access &a = op.acc[r]; a.elems.clear(); a.exp_rc = NC_NOERR; a.rc_any = false; a.reqslot = -1;
             if (!a.active) continue;
@@ -573,13 +606,17 @@ static bool model_step_inner(Model &m, Op &op) {
             normalise_access(v, a);
             bool fatal; int rc = predict_access_rc(f, r, vi, a, is_read, kind, false, m.strict_coord, fatal);
             MRank &rk = f.ranks[r];
+            if (f.bb && a.form == F_VAR && v.isrec && !bb_numrecs_exact(f, r)) return bbskip();
             if (rc == NC_NOERR && kind == K_BPUT && !rk.abuf) rc = NC_ENULLABUF;
+            if (f.bb && kind == K_BPUT && rc == NC_ENULLABUF) return bbskip();   // the burst-buffer driver has no attached buffer: outside the common fragment
             if (rc == NC_NOERR) {
                 if (a.form == F_VAR) { a.start.assign(v.dimids.size(), 0); a.count = v.shape; if (v.isrec) a.count[0] = rk.numrecs; a.stride.clear(); }
                 if (a.form == F_VAR1) a.count.assign(v.dimids.size(), 1);
                 acc_elems(v, a, a.elems);
                 long long nbytes = (long long)a.elems.size() * nc_type_size(v.type);
                 if (kind == K_BPUT && rk.abuf_size - rk.abuf_used < nbytes) rc = NC_EINSUFFBUF;
+                if (f.bb && rc == NC_EINSUFFBUF) return bbskip();
+                if (f.bb && !is_read && (a.form == F_VARD || bb_conflict(f, v, a.elems, r, true))) return bbskip();
                 if (rc == NC_NOERR && a.elems.empty()) { /* a zero-length request is not queued: the id returned is NC_REQ_NULL */ }
                 else if (rc == NC_NOERR) {
                     if (!is_read) { long long mx = std::min(type_maxval(v.type), mem_maxval(a.memtype)); a.values.resize(a.elems.size()); for (size_t k = 0; k < a.elems.size(); k++) a.values[k] = value_for(opidx, a.vrank >= 0 ? a.vrank : r, (long long)k, mx); }
@@ -588,6 +625,12 @@ static bool model_step_inner(Model &m, Op &op) {
                     if (kind == K_BPUT) rk.abuf_used += nbytes;
                     a.reqslot = (int)rk.reqs.size();
                     if (kind == K_BPUT) rk.abuf_table.push_back({nbytes, a.reqslot}); q.acc.reqslot = a.reqslot; rk.reqs.push_back(q);
+                    if (f.bb && !is_read) {   // logged at post time: from now on a flush may put it into the file at any moment before its wait
+                        invalidate_racing_reads(m, op.file, vi, r, a.elems);
+                        uint8_t me = (uint8_t)(1u << r); long long maxrec = 0;
+                        for (auto e : a.elems) { if (v.isrec) { long long rec = e / v.recelems; maxrec = std::max(maxrec, rec + 1); ensure_records(v, rec + 1); } if (e >= 0 && e < (long long)v.cells.size()) { Cell &c = v.cells[(size_t)e]; c.bb |= me; c.bbx |= me; if (c.bbpend < 255) c.bbpend++; } }
+                        rk.bb_pending = true; rk.reqs.back().maxrec = maxrec;   // (the record count may or may not include it until its wait: see bb_pending_hi)
+                    }
                 }
             }
             a.exp_rc = rc; op.exp_rc_rank[r] = rc;
@@ -600,6 +643,8 @@ static bool model_step_inner(Model &m, Op &op) {
         if (!f.open) return skip();
         bool cancel = op.kind == OP_CANCEL;
         if ((int)op.waits.size() != m.nprocs) return skip();
+        if (f.bb && cancel) return skip();   // burst buffer: cancelling may fail with NC_EFLUSHED after the data went to the file (documented issue 2): outside the common fragment
+        if (f.bb) for (auto &w : op.waits) if (w.active && w.mode == 0) for (auto s2 : w.slots) if (s2 == -2) return skip();
         if (!cancel) { if (f.mode == FM_DEFINE || (op.coll && f.mode != FM_COLL) || (!op.coll && f.mode != FM_INDEP)) return skip(); }
         // resolve which requests complete on each rank
         std::vector<std::vector<int>> done(m.nprocs);
@@ -629,7 +674,9 @@ static bool model_step_inner(Model &m, Op &op) {
                 invalidate_racing_reads(m, op.file, q.var, r, q.acc.elems);
                 for (auto e : q.acc.elems) { auto key = std::make_pair(q.var, e); if (touched.count(key) && e < (long long)v.cells.size()) v.cells[(size_t)e].st = CS_UNKNOWN; touched[key] = r; }
                 grow_numrecs(f, r, maxrec, op.coll);
+                if (f.bb) for (auto e : q.acc.elems) if (e >= 0 && e < (long long)v.cells.size() && v.cells[(size_t)e].bbpend) v.cells[(size_t)e].bbpend--;
             }
+            if (f.bb) { if (op.coll) bb_flush_all(f); else for (int r = 0; r < m.nprocs; r++) if (op.waits[r].active) bb_flush(f, r); }   // every wait flushes the caller's whole log
             if (op.coll) sync_numrecs(f);
             for (int r = 0; r < m.nprocs; r++) for (int s : done[r]) {
                 MReq &q = f.ranks[r].reqs[s]; if (q.kind != K_IGET) continue;
@@ -687,6 +734,7 @@ void annotate(Model &m, Program &p) {
     m.strict_coord = (it != p.cfg.sim.env.end() && it->second == "0");
     m.strict_iget_overlap = (p.cfg.flags & 1) != 0;
     { auto sm = p.cfg.sim.env.find("PNETCDF_SAFE_MODE"); m.safe_mode = (sm != p.cfg.sim.env.end() && sm->second != "0"); }
+    m.bb_rules = (p.cfg.flags & 4) != 0;
     { auto h = p.cfg.sim.env.find("PNETCDF_HINTS"); m.aggr_env = (h != p.cfg.sim.env.end() && h->second.find("nc_num_aggrs_per_node") != std::string::npos); }
     if (p.cfg.profile != "C19") for (auto &f : p.preload) { MFile mf; if (model_from_image(f.second, f.first, mf)) m.disk[f.first] = mf; }   // (C19 feeds damaged files: no model)
     m.cur_ops = &p.ops;
